@@ -76,11 +76,18 @@ class Gen:
         still bound by page context and component data, and read everywhere, in those programs."""
         return bool(self.P.get("collide")) and not (getattr(self, "mode", None) == "django" and self.on("only"))
 
-    def expr(self, scope, label="expr"):
-        """String-valued expression: literal or a string variable in scope."""
+    def expr(self, scope, label="expr", tag_input=False):
+        """String-valued expression: literal or a string variable in scope. tag_input=True: the expression is an input of
+        one of the LIBRARY's tags (filters and quoted nested expressions are the library's own parsing there)."""
         strs = scope["str"]
         if strs and self.ch.chance(1, 2, label):
-            return ["var", self.ch.choice(strs, label)]
+            name = self.ch.choice(strs, label)
+            k = self.ch.weighted([8, 2 if self.on("faults") else 0, 2], label + "_form") if tag_input else 0
+            if k == 1:
+                return ["varf", name, self.site()]      # user code (a filter) inside a TAG INPUT:  s=name|vf:"s7"
+            if k == 2:
+                return ["tpl", name]                    # quoted string with a nested expression:   s="{{ name }}"
+            return ["var", name]
         return ["lit", self.tok().upper()]
 
     # -- program ------------------------------------------------------------
@@ -290,6 +297,10 @@ class Gen:
             kinds.append(("fault", 1))
         if scope["aliases"]:
             kinds.append(("alias", 4))
+        if scope.get("loops", 0) > 0 and (P.get("collide") or not in_fill):
+            # (`forloop` collides by nature with every other loop; inside fill content that meets open finding F15, so it
+            # is echoed there only in collision mode, where C03's diagnosis can tell F15 from a new defect)
+            kinds.append(("forloop", 2))
         k = kinds[ch.weighted([w for _, w in kinds], "kind")][0]
         if k == "text":
             return ["text", self.tok()]
@@ -298,6 +309,10 @@ class Gen:
             if self.on("faults") and ch.chance(1, 6, "varf"):
                 return ["varf", name, self.site()]
             return ["var", name]
+        if k == "forloop":
+            depth_ = scope["loops"]
+            up = ch.draw(min(depth_, 3), "forloop_up")
+            return ["forloop", up, ["counter", "counter0", "first", "last"][ch.draw(4, "forloop_attr")]]
         if k == "cvar":
             return ["var", ch.choice(POOL, "cvar")]
         if k == "pvar":
@@ -314,7 +329,7 @@ class Gen:
         if k == "for":
             lst = ch.choice(scope["list"], "forlist")
             x = ch.choice(POOL, "loopvar_pool") if (self.pool_bindings() and ch.chance(1, 2, "loopvar_collide")) else self.newvar("x")
-            sc = dict(scope, str=scope["str"] + [x])
+            sc = dict(scope, str=scope["str"] + [x], loops=scope.get("loops", 0) + 1)
             return ["for", x, lst, self.nodes(sc, owner, depth + 1, in_fill=in_fill, in_slot_default=in_slot_default)]
         if k == "with":
             w = ch.choice(POOL, "with_pool") if (self.pool_bindings() and ch.chance(1, 2, "with_collide")) else self.newvar("w")
@@ -328,7 +343,7 @@ class Gen:
             # provider kwarg names come from a small fixed pool, so that any template may try to read them as
             # variables (they must never be visible: "provided values never become template variables")
             first = ch.draw(3, "pkw_first")
-            kw = [[PROVIDE_KWARGS[(first + q) % 3], self.expr(scope, "pval")] for q in range(1 + ch.draw(2, "n_pkw"))]
+            kw = [[PROVIDE_KWARGS[(first + q) % 3], self.expr(scope, "pval", tag_input=True)] for q in range(1 + ch.draw(2, "n_pkw"))]
             if owner is None and not in_fill and ch.chance(1, 4, "provide_spread"):
                 # the same {% provide %} tag rendered once per dict of `pds`, its kwargs coming from a spread: the dicts
                 # differ in key order / names, so anything memoised on the tag from an earlier render shows
@@ -375,7 +390,7 @@ class Gen:
         is_required = ch.chance(1, 5, "required")
         data = []
         if self.on("aliases"):
-            data = [[self.newvar("sd"), self.expr(scope, "slotdata")] for _ in range(ch.draw(3, "n_slotdata"))]
+            data = [[self.newvar("sd"), self.expr(scope, "slotdata", tag_input=True)] for _ in range(ch.draw(3, "n_slotdata"))]
         cd["slots"].append([name, is_default, is_required, [d[0] for d in data]])
         body = []
         if ch.chance(3, 4, "slotbody"):
@@ -390,7 +405,7 @@ class Gen:
         cd = self.comps[j]
         kwargs = []
         if ch.chance(1, 2, "kw_s"):
-            kwargs.append(["s", self.expr(scope, "kw_s_val")])
+            kwargs.append(["s", self.expr(scope, "kw_s_val", tag_input=True)])
         if scope["list"] and ch.chance(1, 2, "kw_l"):
             kwargs.append(["l", ["var", ch.choice(scope["list"], "kw_l_val")]])
         only = self.on("only") and ch.chance(1, self.P.get("only_den", 4), "only")
@@ -463,9 +478,12 @@ class Gen:
             # dynamically named fills: {% for n in names %}{% fill name=n %}...{% endfill %}{% endfor %}
             x = self.newvar("n")
             lst = ch.choice(scope["names"], "namelist")
-            sc2 = dict(sc, str=sc["str"] + [x])
+            # `forloop` is a colliding name by nature: inside a fill that sits in a loop between tag and fill it hits open
+            # finding F15 (captured variables misplaced) - echoed there only in collision mode (C03 diagnoses F15)
+            sc2 = dict(sc, str=sc["str"] + [x], loops=(sc.get("loops", 0) + 1) if self.P.get("collide") else 0)
             body = self.nodes(sc2, owner, depth + 1, in_fill=True)
-            return ["for", x, lst, [["fill", ["var", x], data_alias, default_alias, body]]]
+            nameexpr = ["tpl", x] if ch.chance(1, 3, "dyn_name_tpl") else ["var", x]
+            return ["for", x, lst, [["fill", nameexpr, data_alias, default_alias, body]]]
         if wrap == 0 and self.pool_bindings() and getattr(self, "mode", None) == "django" and not self.on("slot_in_fill") \
                 and ch.chance(1, 3, "fill_with"):
             # (not combined with slots inside fills: there the captured variables of sibling fills reach each other
@@ -487,7 +505,7 @@ class Gen:
         if wrap == 2 and scope["list"]:
             x = ch.choice(POOL, "fillloop_pool") if (self.pool_bindings() and ch.chance(1, 2, "fillloop_collide")) else self.newvar("x")
             lst = ch.choice(scope["list"], "filllooplist")
-            sc3 = dict(sc, str=sc["str"] + [x])
+            sc3 = dict(sc, str=sc["str"] + [x], loops=(sc.get("loops", 0) + 1) if self.P.get("collide") else 0)
             f[4] = self.nodes(sc3, owner, depth + 1, in_fill=True)
             return ["for", x, lst, [f]]
         return f
@@ -505,7 +523,7 @@ def skeleton(nodes):
     out = []
     for n in nodes:
         k = n[0]
-        if k in ("text", "var", "varf", "filled", "fault", "alias_data", "alias_default"):
+        if k in ("text", "var", "varf", "filled", "fault", "alias_data", "alias_default", "forloop"):
             out.append(k[0])
         elif k == "if":
             out.append(["if", skeleton(n[2]), skeleton(n[3])])
